@@ -502,6 +502,10 @@ def _model_cmp(op, a, b, cx):
                     return ("bool", True)
                 return merr("any")
     elif not a.bare and a.dims != b.dims:
+        if op in ("==", "!=") and getattr(cx, "context", None):
+            # == converts its operand with the active contexts (a wavelength can equal a frequency, and a
+            # zero wavelength divides by zero in the hc/x rule): not judged here, ordering still is
+            return skip("equality-converts-through-the-active-context")
         if op == "==":
             return ("bool", False)
         if op == "!=":
